@@ -120,6 +120,14 @@ def expandName (e : Env) (obj : Nat) (name : Path) : Option Path := expandLoop e
 inductive Found | obj (i : Nat) | external | lookupError | indexError | crash
   deriving DecidableEq, Repr
 
+/-- the guard of `find_object` (since fix 996ac8b): the root binds the first component of the rest of the name —
+`first in root_obj.contents or (isinstance(root_obj, CanContainImportsDocumentable) and first in
+root_obj._localNameToFullName_map)` -/
+def rootBinds (e : Env) (ro : Nat) (first : Name) : Bool :=
+  match getObj e.st ro with
+  | some o => (dget o.contents first).isSome || (canContainImports o.cls && (dget o.aliases first).isSome)
+  | none => false
+
 /-- `System.find_object(full_name)` -/
 def findObject (e : Env) (full : Path) : Found :=
   match objFor e full with
@@ -127,6 +135,28 @@ def findObject (e : Env) (full : Path) : Found :=
   | none =>
     match full with
     | [] => .external      -- ''.split('.',1) = [''] ; no root is called ''
+    | r :: rest =>
+      match e.st.roots.find? (fun ro => match getObj e.st ro with | some o => o.name = r | none => false) with
+      | none => .external
+      | some ro =>
+        match rest with
+        | [] => .indexError           -- `name_parts[1]`
+        | first :: _ =>
+          if !rootBinds e ro first then .lookupError else
+          match expandName e ro rest with
+          | none => .crash
+          | some p => match objFor e p with
+            | some o => .obj o
+            | none => .lookupError
+
+/-- HISTORICAL: `find_object` before fix 996ac8b — no guard: a rest whose first component the root does not bind was
+handed back by `expandName` as a free name, and an unrelated root module of that name was found -/
+def findObjectOld (e : Env) (full : Path) : Found :=
+  match objFor e full with
+  | some o => .obj o
+  | none =>
+    match full with
+    | [] => .external
     | r :: rest =>
       match e.st.roots.find? (fun ro => match getObj e.st ro with | some o => o.name = r | none => false) with
       | none => .external
